@@ -45,6 +45,13 @@ MUST_HAVE = [("int", 2**53), ("int", 2**53 + 1), ("dec", float(2**53)), ("int", 
              ("str", "20200101000000"), ("int", 2**63), ("dec", float(2**63)), ("int", 2**63 + 1)]
 
 KINDS_ALL = ["null", "bool", "int", "dec", "str", "date", "pat"]
+# decimals that differ by a few units in the last place: equal only if identical
+import math as _math
+_N1 = _math.nextafter(1.0, 2.0)
+NEAR_PAIRS = [(("dec", 0.1 + 0.2), ("dec", 0.3)), (("dec", 1.0), ("dec", _N1)), (("dec", 1.0), ("dec", 1.0 + 6e-14)), (("dec", 1.0 + 6e-14), ("dec", 1.0 + 1.2e-13)),
+              (("dec", 3.0), ("dec", 1.5 + 1.5000000000000004)), (("int", 3), ("dec", 1.5 + 1.5000000000000004)), (("dec", 1e16), ("dec", 1e16 + 2.0)),
+              (("dec", 0.3), ("dec", 0.3 + 2.4e-15)), (("dec", -0.1 - 0.2), ("dec", -0.3)), (("dec", 100.0), ("dec", 100.00000000000001)),
+              (("list", (("dec", 0.1 + 0.2),)), ("list", (("dec", 0.3),))), (("dec", 5e-324), ("dec", 0.0)), (("dec", 1e-300), ("dec", 1.0000000000000002e-300))]
 
 
 def kpair(a, b):
@@ -279,6 +286,27 @@ def run_programs(spec, ctx):
         b = twin(r, a) if r.random() < 0.4 else gv.gen_value(r, depth=r.choice([0, 0, 1, 2]), kinds=KINDS_ALL)
         if r.random() < 0.15:
             a, b = r.sample(MUST_HAVE, 2)
+        elif r.random() < 0.08:
+            a, b = r.choice(NEAR_PAIRS)
+            if r.random() < 0.5:
+                a, b = b, a
+            ctx.count("near_equal_decimal_pairs")
+        if r.random() < 0.04:
+            # dates a fraction of a second apart (reached by date arithmetic): whatever `==` says about them, membership,
+            # set equality, set size and map lookup say the same
+            base_d = "date('%04d%02d%02d%02d%02d%02d')" % (r.choice([1970, 2020, 2000]), r.randint(1, 12), r.randint(1, 28), r.randint(0, 23), r.randint(0, 59), r.randint(0, 59))
+            off = r.choice(["0.000004", "0.000001", "0.0000058", "0.00001", "0.0000115", "0.000000001"])
+            src = ("def d = %s; def e = d + %s; def q = (d == e); "
+                   "[(e in <<d>>) == q, (<<d>> == <<e>>) == q, (length(<<d, e>>) == 1) == q, (<<<identity(d) => 1>>>[e, 0] == 1) == q, (e in [d]) == q, "
+                   "([d] == [e]) == q, (length(unique([d, e])) == 1) == q, (d != e) == (not q)]" % (base_d, off))
+            o = ev(src)
+            ctx.count("program_evaluations")
+            ctx.count("subsecond_date_programs")
+            ctx.case(("subsecond", base_d, off), nontrivial=True)
+            if o.kind != "value":
+                ctx.violation("C06:program-error:subsecond-dates", "%s -> %s %s" % (src, o.kind, core.safe_str(o.exc)), {"src": src})
+            elif "FALSE" in core.safe_str(o.value):
+                ctx.violation("C06:program:subsecond-dates", "%s -> %s: `==` and the containers disagree about two dates a fraction of a second apart" % (src, core.safe_str(o.value)), {"src": src})
         if not (gv.finite(a) and gv.finite(b) and literalable(a) and literalable(b)):
             continue
         sa, sb = gv.to_source(a, r, r), gv.to_source(b, r, r)
